@@ -214,7 +214,7 @@ def lagrange(
                     for i, idxs in enumerate(indices)
                 ]
             )
-            y_new[y_idx] = r.T @ y_wd
+            y_new[y_idx] = np.tensordot(r.T, y_wd, axes=1)
         return y_new
 
     return _lagrange
